@@ -221,6 +221,55 @@ var pow2 = map[int]string{7: "128", 8: "256", 15: "32768", 16: "65536", 31: "214
 // sanity, refs allocated below cnt).
 var initReadRe = regexp.MustCompile(`^\(select (\(select )?[^ ()]+@0 `)
 
+// selectBase: the object (or backing array) a read `(select H base)` / `(select (select H arr) idx)` goes through
+func selectBase(x string) string {
+	if !strings.HasPrefix(x, "(select ") {
+		return ""
+	}
+	rest := x[len("(select "):]
+	if strings.HasPrefix(rest, "(select ") {
+		// element read: the base is the array argument of the inner select
+		inner := balanced(rest)
+		if inner == "" {
+			return ""
+		}
+		return selectBase(inner)
+	}
+	// field read: skip the heap name, take the next balanced term
+	i := strings.IndexByte(rest, ' ')
+	if i < 0 {
+		return ""
+	}
+	return balanced(rest[i+1:])
+}
+
+// balanced: the first complete s-expression (or atom) at the start of s
+func balanced(s string) string {
+	if s == "" {
+		return ""
+	}
+	if s[0] != '(' {
+		i := strings.IndexAny(s, " )")
+		if i < 0 {
+			return s
+		}
+		return s[:i]
+	}
+	d := 0
+	for i := 0; i < len(s); i++ {
+		switch s[i] {
+		case '(':
+			d++
+		case ')':
+			d--
+			if d == 0 {
+				return s[:i+1]
+			}
+		}
+	}
+	return ""
+}
+
 func (m *Model) TypeFacts(v Val, cnt0 string) []string {
 	if v.T == nil {
 		return nil
@@ -230,9 +279,14 @@ func (m *Model) TypeFacts(v Val, cnt0 string) []string {
 	for i, c := range cs {
 		x := v.C[i]
 		cnt := cnt0
-		// a reference read from the initial heap exists in the pre-state (entry heap is well-formed)
+		// a reference read from the initial heap out of an object that existed at entry exists in the pre-state (the entry
+		// heap is well-formed). The initial version also describes objects allocated later by callees whose contracts assign
+		// nothing (their ensures talk about fresh indices of the same version), so the fact is guarded by the base object.
+		guard0 := ""
 		if cnt != "" && initReadRe.MatchString(x) {
-			cnt = "cnt0"
+			if base := selectBase(x); base != "" {
+				guard0 = fmt.Sprintf("(=> (< %s cnt0) (< %s cnt0))", base, x)
+			}
 		}
 		switch c.Kind {
 		case "int":
@@ -245,11 +299,17 @@ func (m *Model) TypeFacts(v Val, cnt0 string) []string {
 			} else {
 				fs = append(fs, fmt.Sprintf("(>= %s 0)", x))
 			}
+			if guard0 != "" {
+				fs = append(fs, guard0)
+			}
 		case "slice.arr":
 			if cnt != "" {
 				fs = append(fs, fmt.Sprintf("(and (>= %s 0) (< %s %s))", x, x, cnt))
 			} else {
 				fs = append(fs, fmt.Sprintf("(>= %s 0)", x))
+			}
+			if guard0 != "" {
+				fs = append(fs, guard0)
 			}
 			// arr == 0 => len == 0
 			fs = append(fs, fmt.Sprintf("(=> (= %s 0) (= %s 0))", x, v.C[i+2]))
@@ -400,13 +460,15 @@ func (m *Model) heapGet(s *State, k HeapKey) string {
 	name := fmt.Sprintf("%s@%d", k.Key, s.epoch)
 	if !m.ctx.declared[name] {
 		m.ctx.Const(name, k.Sort)
-		// the entry heap is well-formed: every reference stored in it exists in the pre-state
+		// the entry heap is well-formed: every reference stored in an object that exists at entry exists in the pre-state.
+		// (Guarded by the object: the initial version also describes, at fresh indices, objects allocated later by callees
+		// whose contracts assign nothing; an unguarded axiom contradicts `fresh(result.f)` and makes those paths vacuous.)
 		if s.epoch == 0 && (k.Ref || refKeys[k.Key]) {
 			switch {
 			case strings.HasPrefix(string(k.Sort), "(Array Int (Array Int Int"):
-				m.ctx.axioms = append(m.ctx.axioms, fmt.Sprintf("(forall ((a Int) (i Int)) (! (and (>= (select (select %s a) i) 0) (< (select (select %s a) i) cnt0)) :pattern ((select (select %s a) i))))", name, name, name))
+				m.ctx.axioms = append(m.ctx.axioms, fmt.Sprintf("(forall ((a Int) (i Int)) (! (=> (< a cnt0) (and (>= (select (select %s a) i) 0) (< (select (select %s a) i) cnt0))) :pattern ((select (select %s a) i))))", name, name, name))
 			case k.Sort == ArrSort(SInt, SInt):
-				m.ctx.axioms = append(m.ctx.axioms, fmt.Sprintf("(forall ((r Int)) (! (and (>= (select %s r) 0) (< (select %s r) cnt0)) :pattern ((select %s r))))", name, name, name))
+				m.ctx.axioms = append(m.ctx.axioms, fmt.Sprintf("(forall ((r Int)) (! (=> (< r cnt0) (and (>= (select %s r) 0) (< (select %s r) cnt0))) :pattern ((select %s r))))", name, name, name))
 			}
 		}
 	}
